@@ -248,6 +248,13 @@ def rule_own(ctx, rule_id="C06.OWN", prop="C06") -> RuleResult:
         aliases = {}
         if any(isinstance(n, ast.Attribute) and n.attr in REGISTRIES for n in ast.walk(fn.node)):
             aliases = {k: v for k, v in single_assignments(fn.node).items() if isinstance(v, ast.Attribute) and v.attr in REGISTRIES}
+            # `for registry in (self._groups, self._data, ..):` — the loop variable stands for each of them
+            for lp in ast.walk(fn.node):
+                tgt, it = (lp.target, lp.iter) if isinstance(lp, (ast.For, ast.comprehension)) else (None, None)
+                if isinstance(tgt, ast.Name) and isinstance(it, (ast.Tuple, ast.List, ast.Set)):
+                    regs = [e for e in it.elts if isinstance(e, ast.Attribute) and e.attr in REGISTRIES]
+                    if regs:
+                        aliases[tgt.id] = regs[0]
         for n in ast.walk(fn.node):
             # re-binding
             if isinstance(n, ast.Attribute) and n.attr in REGISTRIES and isinstance(n.ctx, ast.Store) and isinstance(n.value, ast.Name):
@@ -283,6 +290,9 @@ def rule_own(ctx, rule_id="C06.OWN", prop="C06") -> RuleResult:
             base = n.value if isinstance(n, ast.Subscript) and isinstance(n.ctx, (ast.Store, ast.Del)) else None
             if isinstance(base, ast.Name) and base.id in aliases:
                 base = aliases[base.id]
+            if isinstance(base, ast.Call) and isinstance(base.func, ast.Name) and base.func.id == "getattr" and len(base.args) >= 2 \
+                    and isinstance(base.args[1], ast.Constant) and base.args[1].value in REGISTRIES:
+                base = ast.Attribute(value=base.args[0], attr=base.args[1].value, ctx=ast.Load())
             if isinstance(base, ast.Attribute) and base.attr in REGISTRIES:
                 if isinstance(base.value, ast.Name) and (fn.cls is None or base.value.id == fn.self_name and in_ws or base.value.id != fn.self_name):
                     # fields named _data / _groups ... of other classes (Concatenator._data) are different fields
@@ -535,16 +545,36 @@ def rule_effect(ctx) -> RuleResult:
             return None
 
         regs = {}
+        uid_param = "uid" if "uid" in fn.params else None
+        final, told = True, 0
         for path in _paths(ctx, fn, boring=lambda c: True, tag="order"):
             effects = []
+            ident = None  # what the identifier was last set from
+            first = True
             for ev in path.trace:
                 k = kind_of(ev)
+                if ev.kind in ("store", "aug") and _t(ev.expr) in (f"{me}._uid", f"{me}.uid") and not ev.maybe:
+                    # the value, and what was decided about the caller's request on the way to it (no valid request -> a new one)
+                    ident = ast.Tuple(elts=[ev.value] + [c for c, _ in path.conds_before(ev)], ctx=ast.Load())
+                if k in ("effect", "register") and first and uid_param is not None:
+                    # the first time another object (the parent, the workspace) hears of the entity, its identifier is the final
+                    # one: it was set, and set from what the caller asked for
+                    first = False
+                    told += 1
+                    final &= ident is not None and any(isinstance(x, ast.Name) and x.id == uid_param for x in ast.walk(ident))
                 if k == "effect":
                     effects.append(ev.lineno)
                 elif k == "register":
                     regs.setdefault(id(ev.node), (ev, set()))[1].update(effects)
         if not regs:
             raise AnalysisError(f"{spec}: workspace.register(self) not found")
+        if uid_param is not None and told:
+            res.inst(f"{spec}: the identifier is set from the caller's `{uid_param}` before the parent / the workspace hear of the entity", nontrivial=True, ok=final)
+            if not final:
+                res.find(fn.cls.name, "__init__", "identifier not final when the entity is first shown to its parent / the workspace", fn.where,
+                         "the entity is attached (map_attributes -> parent setter -> add_children) or registered under a provisional identifier and takes the "
+                         "requested one afterwards: the parent's duplicate test by uid does not see the collision, a refused creation stays among the children "
+                         "and two children answer to one identifier")
         for r, lines in regs.values():
             before = sorted(lines)
             ok = not before
@@ -652,7 +682,116 @@ def rule_guard(ctx) -> RuleResult:
         res.find("Workspace", "copy_to_parent", "the source uid is harvested into the copy's constructor arguments", ctp.where,
                  "copies into the same workspace re-use the identifier of their source")
     _guard_type_copy(ctx, res)
+    _guard_concatenated(ctx, res)
+    _guard_type_uid(ctx, res)
     return res
+
+
+def _excludes_key(e, key) -> bool:
+    """The (closed) iterable / filter leaves the key out: `.. - {key}`, `k != key`, `k not in (.., key, ..)`."""
+    for x in ast.walk(e):
+        if isinstance(x, ast.BinOp) and isinstance(x.op, ast.Sub) and any(isinstance(c, ast.Constant) and c.value == key for c in ast.walk(x.right)):
+            return True
+        if isinstance(x, ast.Compare) and len(x.ops) == 1 and isinstance(x.ops[0], (ast.NotEq, ast.NotIn)) \
+                and any(isinstance(c, ast.Constant) and c.value == key for c in ast.walk(x.comparators[0])):
+            return True
+    return False
+
+
+def _guard_type_uid(ctx, res):
+    """copy_to_parent: the caller's keyword arguments override the attributes harvested from the source, entity and type alike.  The
+    identifier asked for is the COPY's: whatever writes caller-chosen keys into the dictionary of the TYPE must leave 'uid' out."""
+    fn = ctx.p.func("Workspace.copy_to_parent")
+    kwargs = fn.node.args.kwarg.arg if fn.node.args.kwarg else None
+    if kwargs is None:
+        return
+    sites = {}
+
+    def from_caller(e):
+        return e is not None and any(isinstance(x, ast.Name) and x.id == kwargs for x in ast.walk(e))
+
+    for path in _paths(ctx, fn, boring=_no_lookup, tag="lookup"):
+        made = next((e for e in path.trace if e.kind == "call" and call_name(e.expr) == "create_entity"), None)
+        if made is None:
+            continue
+        types = {v.id for k in made.expr.keywords for v in ([k.value] if k.arg == "entity_type" else
+                                                             [y for x, y in zip(k.value.keys, k.value.values) if isinstance(x, ast.Constant) and x.value == "entity_type"]
+                                                             if k.arg is None and isinstance(k.value, ast.Dict) else []) if isinstance(v, ast.Name)}
+        for ev in path.before(made):
+            ok = None
+            if ev.kind == "call" and isinstance(ev.expr.func, ast.Attribute) and ev.expr.func.attr == "update" and _t(ev.expr.func.value) in types:
+                for a in ev.expr.args:
+                    if isinstance(a, (ast.GeneratorExp, ast.ListComp, ast.DictComp)) and from_caller(a):
+                        ok = _excludes_key(a, "uid")
+                    elif isinstance(a, ast.Name) and a.id == kwargs:
+                        ok = False
+            elif ev.kind == "store" and isinstance(ev.expr, ast.Subscript) and _t(ev.expr.value) in types and not isinstance(ev.expr.slice, ast.Constant):
+                k = path.iteration_of(ev)
+                loop = path.trace[k] if k is not None else None
+                if from_caller(ev.value) or (loop is not None and from_caller(loop.expr)):
+                    key = _t(ev.expr.slice)
+                    ok = (loop is not None and loop.expr is not None and _excludes_key(loop.expr, "uid")) or any(
+                        not pol and isinstance(c, ast.Compare) and isinstance(c.ops[0], (ast.Eq, ast.In)) and _t(c.left) == key
+                        and any(isinstance(x, ast.Constant) and x.value == "uid" for x in ast.walk(c.comparators[0])) for c, pol in path.conds_before(ev))
+            if ok is not None:
+                s_ = sites.setdefault(id(ev.node), {"ev": ev, "ok": True})
+                s_["ok"] &= ok
+    for s_ in sites.values():
+        ev = s_["ev"]
+        res.inst(f"copy_to_parent: caller's keyword arguments written into the type attributes at line {ev.lineno} leave 'uid' out", nontrivial=True, ok=s_["ok"])
+        if not s_["ok"]:
+            res.find("Workspace", "copy_to_parent", "caller's uid also overrides the uid of the copy's type", f"{fn.module.relpath}:{ev.lineno}",
+                     "copy(uid=X) asks for a type with uid X as well: no copy is made for an object (no class owns type X), a data copy gets a new type "
+                     "under the data's own identifier instead of sharing the type of its source")
+
+
+CONCATENATED_IDS = ("concatenated_object_ids", "concatenated_attributes")
+
+
+def _guard_concatenated(ctx, res):
+    """Concatenator.copy: the identifiers of all concatenated objects and data travel in two attributes of the group.  Handing the
+    source's values over to the copy re-uses every one of those identifiers: only under a test that none of them is in use in the
+    copy's workspace (an all(..) / any(..) over look-ups there)."""
+    fn = ctx.p.func("Concatenator.copy")
+    me = fn.self_name
+    sites = {}
+    for path in _paths(ctx, fn, boring=_no_lookup, tag="lookup"):
+        for ev in path.trace:
+            if not (ev.kind == "store" and isinstance(ev.expr, ast.Attribute) and ev.expr.attr in CONCATENATED_IDS and ev.value is not None):
+                continue
+            if _t(ev.expr.value) == me or not any(isinstance(x, ast.Attribute) and x.attr.lstrip("_") in CONCATENATED_IDS and _t(x.value) == me for x in ast.walk(ev.value)):
+                continue  # not the source's identifiers going to another entity
+            target = _t(_strip_ws(ev.expr.value))
+
+            def free_in_target(x):
+                if isinstance(x, ast.Subscript) and isinstance(x.slice, ast.Constant) and x.slice.value == 0:
+                    x = x.value
+                if not (isinstance(x, ast.Call) and isinstance(x.func, ast.Attribute) and x.func.attr in LOOKUPS and x.args):
+                    return False
+                recv = x.func.value
+                return isinstance(recv, ast.Attribute) and recv.attr == "workspace" and _t(_strip_ws(recv)) == target
+
+            def all_free(c, pol):
+                if not (isinstance(c, ast.Call) and isinstance(c.func, ast.Name) and c.func.id in ("all", "any") and len(c.args) == 1
+                        and isinstance(c.args[0], (ast.GeneratorExp, ast.ListComp)) and len(c.args[0].generators) == 1):
+                    return False
+                g = c.args[0]
+                if not any(isinstance(x, ast.Name) and x.id == me for x in ast.walk(g.generators[0].iter)):
+                    return False  # not a test over the source's identifiers
+                wanted = c.func.id == "all"
+                return pol == wanted and not g.generators[0].ifs and _absent(_implied(g.elt, wanted), free_in_target)
+
+            ok = any(all_free(c, pol) for c, pol in path.conds_before(ev))
+            s_ = sites.setdefault(id(ev.node), {"ev": ev, "ok": True})
+            s_["ok"] &= ok
+    for s_ in sites.values():
+        ev = s_["ev"]
+        res.inst(f"Concatenator.copy: `{ev.expr.attr}` of the source handed to the copy at line {ev.lineno} only when no identifier in it is in use in the copy's workspace",
+                 nontrivial=True, ok=s_["ok"])
+        if not s_["ok"]:
+            res.find("Concatenator", "copy", "concatenated identifiers handed to the copy without a lookup in the target", f"{fn.module.relpath}:{ev.lineno}",
+                     "the identifiers of every concatenated object and data of the group are re-used in the other workspace unchecked: a second copy into the "
+                     "same workspace is refused half-way (RuntimeError from insert_once) and leaves an empty duplicate group behind")
 
 
 def _guard_type_copy(ctx, res):
